@@ -20,7 +20,7 @@ RULE = ("random FSTs (1-4 states, <= 8 transitions, outputs of length 0-2, sever
         "re-entered start states, final states with outgoing edges, operands sharing state names) x all input words up to length 3|4; outputs compared as sets")
 EXPLANATION = "translate proved exact; operations compared with reference constructions on bounded inputs."
 
-OPS = ["translate", "translate", "union", "concatenate", "kleene_star", "to_fst"]
+OPS = ["translate", "translate", "union", "concatenate", "kleene_star", "to_fst", "nested_star"]
 
 
 def generate(ctx):
@@ -32,6 +32,11 @@ def generate(ctx):
         c = {"op": op, "maxlen": 3 if ctx.tier == "quick" else 4, "operator": rng.random() < 0.3}
         if op == "to_fst":
             c["fa"] = falib.rand_fa(rng, names="plain", max_states=3, max_syms=2)
+        elif op == "nested_star":       # ((A* . B)* . C)*: three fresh start/final states are needed, each time on a transducer that already has some
+            def silent(f):
+                return dict(f, trans=[[s, a, t, ([] if a is None else o)] for s, a, t, o in f["trans"]])
+            c["f"], c["f2"], c["f3"] = (silent(fstlib.rand_fst(rng, max_states=2, max_trans=3)) for _ in range(3))
+            c["maxlen"] = 2
         else:
             c["f"] = fstlib.rand_fst(rng)
             if op == "kleene_star":     # the star of a relation containing (empty, non-empty) is infinite on every input: keep epsilon moves silent
@@ -71,6 +76,9 @@ def impl(case):
         elif op == "concatenate":
             g = fstlib.build_fst(case["f2"])
             res = (f + g) if case.get("operator") else f.concatenate(g)
+        elif op == "nested_star":
+            g, h = fstlib.build_fst(case["f2"]), fstlib.build_fst(case["f3"])
+            res = ((f.kleene_star() + g).kleene_star() + h).kleene_star()
         else:
             res = f.kleene_star()
     outs = []
@@ -88,6 +96,8 @@ def _model(case, sym):
         return F
     if op == "kleene_star":
         return "(fst_star %s)" % F
+    if op == "nested_star":
+        return "(fst_star (fst_concat (fst_star (fst_concat (fst_star %s) %s)) %s))" % (F, fstlib.coq_fst(case["f2"], sym), fstlib.coq_fst(case["f3"], sym))
     G = fstlib.coq_fst(case["f2"], sym)
     return "(%s %s %s)" % ({"union": "fst_union", "concatenate": "fst_concat"}[op], F, G)
 
@@ -150,7 +160,7 @@ def check_cases(ctx, cases):
 
 
 def shrink_candidates(case):
-    for key in ("f", "f2"):
+    for key in ("f", "f2", "f3"):
         if key in case:
             f = case[key]
             for i in range(len(f["trans"])):
